@@ -249,6 +249,18 @@ def kornia_crop_and_resize(interp, input_tensor, boxes, size, mode="bilinear", p
         fx = V.f_sub(x0, T.cast_scalar(xi, FLOAT))
         fy = V.f_sub(y0, T.cast_scalar(yi, FLOAT))
         yy, xx = V.i_add(yi, u), V.i_add(xi, v)
+        # half-pixel boxes (even crop sizes around integer peaks): a provably constant fraction
+        # keeps the blend linear for the solver
+        def _half(f):
+            if isinstance(f, float):
+                return f
+            if interp.path.provable(V.f_eq(f, 0.5)):
+                return 0.5
+            if interp.path.provable(V.b_or(V.f_isnan(f), V.f_eq(f, 0.5))):
+                return V.f_ite(V.zbool(V.f_isnan(f)), math.nan, 0.5)
+            return f
+
+        fx, fy = _half(fx), _half(fy)
         int_corner = V.b_and(V.f_eq(fx, 0.0), V.f_eq(fy, 0.0))
         exact = pix(b, c, yy, xx)
         # grid_sample multiplies the neighbouring pixels by (near-)zero weights; a NaN/inf
